@@ -17,6 +17,26 @@ use pvkit::Fail;
 use std::collections::BTreeMap;
 use std::fmt::Debug;
 
+/// The block structs hold their transaction sequences as `Vec` today; a repair of the
+/// indefinite-length finding turns them into `MaybeIndefArray`. The builders work with either.
+pub trait TxSeq<T> {
+    fn tx_seq(v: Vec<T>, indef: bool) -> Self;
+}
+impl<T> TxSeq<T> for Vec<T> {
+    fn tx_seq(v: Vec<T>, _indef: bool) -> Self {
+        v
+    }
+}
+impl<T> TxSeq<T> for MaybeIndefArray<T> {
+    fn tx_seq(v: Vec<T>, indef: bool) -> Self {
+        if indef {
+            MaybeIndefArray::Indef(v)
+        } else {
+            MaybeIndefArray::Def(v)
+        }
+    }
+}
+
 pub struct G<'a, 'c> {
     pub s: Src<'c>,
     pub arena: &'a Arena,
@@ -1099,20 +1119,27 @@ impl<'a, 'c> G<'a, 'c> {
     pub fn alonzo_block(&mut self) -> alonzo::Block<'a> {
         let h = self.alonzo_header();
         let n = self.s.len(2);
+        let indef = self.s.bool();
         alonzo::Block {
             header: self.keep("alonzo::Header", h),
-            transaction_bodies: (0..n)
-                .map(|_| {
-                    let b = self.alonzo_body();
-                    self.keep("alonzo::TransactionBody", b)
-                })
-                .collect(),
-            transaction_witness_sets: (0..n)
-                .map(|_| {
-                    let w = self.alonzo_witness_set();
-                    self.keep("alonzo::WitnessSet", w)
-                })
-                .collect(),
+            transaction_bodies: {
+                let v: Vec<_> = (0..n)
+                    .map(|_| {
+                        let b = self.alonzo_body();
+                        self.keep("alonzo::TransactionBody", b)
+                    })
+                    .collect();
+                TxSeq::tx_seq(v, indef)
+            },
+            transaction_witness_sets: {
+                let v: Vec<_> = (0..n)
+                    .map(|_| {
+                        let w = self.alonzo_witness_set();
+                        self.keep("alonzo::WitnessSet", w)
+                    })
+                    .collect();
+                TxSeq::tx_seq(v, indef)
+            },
             auxiliary_data_set: self.aux_set(n),
             invalid_transactions: opt!(self, self.vecn(0, 2, |g| g.s.below(4) as u32)),
         }
@@ -1120,20 +1147,27 @@ impl<'a, 'c> G<'a, 'c> {
     pub fn babbage_block(&mut self) -> babbage::Block<'a> {
         let h = self.babbage_header();
         let n = self.s.len(2);
+        let indef = self.s.bool();
         babbage::Block {
             header: self.keep("babbage::Header", h),
-            transaction_bodies: (0..n)
-                .map(|_| {
-                    let b = self.babbage_body();
-                    self.keep("babbage::TransactionBody", b)
-                })
-                .collect(),
-            transaction_witness_sets: (0..n)
-                .map(|_| {
-                    let w = self.babbage_witness_set();
-                    self.keep("babbage::WitnessSet", w)
-                })
-                .collect(),
+            transaction_bodies: {
+                let v: Vec<_> = (0..n)
+                    .map(|_| {
+                        let b = self.babbage_body();
+                        self.keep("babbage::TransactionBody", b)
+                    })
+                    .collect();
+                TxSeq::tx_seq(v, indef)
+            },
+            transaction_witness_sets: {
+                let v: Vec<_> = (0..n)
+                    .map(|_| {
+                        let w = self.babbage_witness_set();
+                        self.keep("babbage::WitnessSet", w)
+                    })
+                    .collect();
+                TxSeq::tx_seq(v, indef)
+            },
             auxiliary_data_set: self.aux_set(n),
             invalid_transactions: opt!(self, self.vecn(0, 2, |g| g.s.below(4) as u32)),
         }
@@ -1141,20 +1175,27 @@ impl<'a, 'c> G<'a, 'c> {
     pub fn conway_block(&mut self) -> conway::Block<'a> {
         let h = self.babbage_header();
         let n = self.s.len(2);
+        let indef = self.s.bool();
         conway::Block {
             header: self.keep("babbage::Header", h),
-            transaction_bodies: (0..n)
-                .map(|_| {
-                    let b = self.conway_body();
-                    self.keep("conway::TransactionBody", b)
-                })
-                .collect(),
-            transaction_witness_sets: (0..n)
-                .map(|_| {
-                    let w = self.conway_witness_set();
-                    self.keep("conway::WitnessSet", w)
-                })
-                .collect(),
+            transaction_bodies: {
+                let v: Vec<_> = (0..n)
+                    .map(|_| {
+                        let b = self.conway_body();
+                        self.keep("conway::TransactionBody", b)
+                    })
+                    .collect();
+                TxSeq::tx_seq(v, indef)
+            },
+            transaction_witness_sets: {
+                let v: Vec<_> = (0..n)
+                    .map(|_| {
+                        let w = self.conway_witness_set();
+                        self.keep("conway::WitnessSet", w)
+                    })
+                    .collect();
+                TxSeq::tx_seq(v, indef)
+            },
             auxiliary_data_set: self.aux_set(n),
             invalid_transactions: opt!(self, self.vecn(0, 2, |g| g.s.below(4) as u32)),
         }
